@@ -893,6 +893,9 @@ class str_(metaclass=_StrMeta):
     def __new__(cls, x="", *a):
         if isinstance(x, SStr):
             return x
+        if isinstance(x, (ZInt, SInt)) and not a and x.concrete() is None:
+            from .instrument import vfmt
+            return vfmt("%d", x)
         if isinstance(x, SBytes) and a:
             return x.decode(*a)
         return str(x, *a)
